@@ -596,6 +596,12 @@ func runCapture(c capCase) string {
 		t.Commands = []string{"printf '%s' 'first out'; exit 3", "printf '%s' '<{{.Output}}>'; exit 4", "printf '%s' '[{{.Output}}]'"}
 		t.AllowFailure = true
 		want = "first out" + "<first out>" + "[<first out>]"
+	case "hooks":
+		// before/after hooks that print: what is captured is what the task's COMMANDS wrote
+		t.Before = []string{"printf 'before-hook-out\\n'"}
+		t.After = []string{"printf 'after-hook-out\\n'"}
+		t.Commands = []string{emit, "printf '%s' second"}
+		want = pl + "second"
 	case "rerun", "rerun-copy":
 		// the task has already run once in this invocation (an earlier target, an earlier stage sharing it, the
 		// watcher's start-up run - which is followed by runs of a struct copy): what is captured is this run's output
@@ -683,7 +689,7 @@ func captureUnit(res *common.Result) {
 	// the capture must not depend on the output format
 	for _, f := range []string{output.FormatPrefixed, output.FormatCockpit} {
 		for _, p := range pls {
-			for _, sh := range []string{"one", "two-x2", "allowed-failure", "chain", "failed-chain", "ansi-split", "rerun", "rerun-copy"} {
+			for _, sh := range []string{"one", "two-x2", "allowed-failure", "chain", "failed-chain", "ansi-split", "rerun", "rerun-copy", "hooks"} {
 				if do(capCase{Name: "plain", Payload: p, Shape: sh, Format: f}) {
 					return
 				}
@@ -692,7 +698,7 @@ func captureUnit(res *common.Result) {
 	}
 	for _, n := range []string{"plain", "a.b", "build:all"} {
 		for _, p := range pls {
-			for _, sh := range []string{"one", "two", "two-x2", "allowed-failure", "chain", "failed-chain", "ansi-split", "rerun", "rerun-copy"} {
+			for _, sh := range []string{"one", "two", "two-x2", "allowed-failure", "chain", "failed-chain", "ansi-split", "rerun", "rerun-copy", "hooks"} {
 				for _, ex := range []string{"", "MYVAR"} {
 					if do(capCase{Name: n, Payload: p, Shape: sh, Export: ex}) {
 						return
